@@ -3,7 +3,7 @@
    handle_canon_executed, create_canon_first_time) and the canon merger of the trace handler
    (model/Handler.v: merge_canon_results, try_merge_next_state_as_canon, meet_canon_start).
 
-   Rust: air/src/execution_step/instructions/{canon.rs, canon_utils/mod.rs},
+   Rust: air/src/execution_step/instructions/{canon.rs, canon_map.rs, canon_stream_map_scalar.rs, canon_utils/mod.rs},
    crates/air-lib/trace-handler/src/merger/canon_merger.rs.
    Definitions only; the proofs are in proofs/CanonProofs.v. *)
 From Aqua Require Import Base Json Air Trace Handler Values Scalars Lens Exec RunExec ExecStreams CallSpec.
@@ -50,15 +50,22 @@ Definition decode_canon_result (c : cid) : option canon_wp :=
   | _ => None
   end.
 
-(* the same outcome up to the streams of the carried context *)
+(* the same outcome up to the stream tables of the carried context *)
 Definition xres_map (f : ctx -> ctx) (r : xres) : xres :=
   match r with XOk y => XOk (f y) | XErr e y => XErr e (f y) | o => o end.
 
-(* the stream values the executing peer knows when it reaches the instruction, in its own iteration
-   order: Stream::iter = previous generations, then current, then new; inside a source by generation,
-   then by insertion (C12_iter_order); an unknown stream is the empty stream (create_canon_stream_producer) *)
-Definition known_values (x : ctx) (stream : var) : list vagg :=
-  match get_stream x (v_name stream) (v_pos stream) with
+(* a context with other stream tables (Streams and StreamMaps), everything else the same *)
+Definition with_tables (x : ctx) (ms mm : Stream.streams vagg) : ctx :=
+  set_ext x {| e_streams := ms; e_stream_maps := mm; e_canon_maps := e_canon_maps (x_ext x) |}.
+Definition same_tables (x y : ctx) : Prop :=
+  e_streams (x_ext y) = e_streams (x_ext x) /\ e_stream_maps (x_ext y) = e_stream_maps (x_ext x).
+
+(* the stream (or stream map) values the executing peer knows when it reaches the instruction, in its
+   own iteration order: Stream::iter = previous generations, then current, then new; inside a source by
+   generation, then by insertion (C12_iter_order); an unknown stream is the empty stream
+   (create_canon_stream_producer) *)
+Definition known_values (tb : table) (x : ctx) (stream : var) : list vagg :=
+  match get_in tb x (v_name stream) (v_pos stream) with
   | Some s => Stream.stream_iter vagg s
   | None => []
   end.
@@ -69,49 +76,68 @@ Definition first_cid (peer : string) (values : list vagg) : cid :=
 
 Definition forget_pos (v : vagg) : vagg := va_set_pos v 0.
 
+(* what the epilog of the three canon instructions binds: the canon stream variable (canon), the canon
+   map variable (canon_map), a scalar holding the first (only) value (canon_stream_map_scalar) *)
+Definition value_bound (k : canon_kind) (x y : ctx) (values : list vagg) (t : tetraplet) (c : cid) : Prop :=
+  match k with
+  | CKStream name => canon_bound x y name {| cw_values := values; cw_tetraplet := t; cw_cid := c |}
+  | CKMap name =>
+      exists shadowed,
+        Scalars.set_value canon_map_wp (e_canon_maps (x_ext x)) name
+                          {| cmw_values := values; cmw_tetraplet := t; cmw_cid := c |}
+        = inl (e_canon_maps (x_ext y), shadowed)
+  | CKMapScalar name =>
+      exists v rest shadowed,
+        values = v :: rest /\
+        Scalars.set_value vagg (x_scalars x) name (VACanon (va_result v) (tp_peer t) (tp_lens t) (len_N (tr x)) c)
+        = inl (x_scalars y, shadowed)
+  end.
+
 (* ------------------------------------------------------------------------------------------ *)
 (* C11_reuse: a met Executed(c) is re-used; the bound value is the content of c, whatever the local
-   streams hold and whichever stream the instruction names *)
+   streams and stream maps hold and whichever stream the instruction names.  For all three canon
+   instructions (k) and both tables (tb). *)
 Definition C11_reuse_stmt : Prop :=
-  forall x p stream canon c,
+  forall k tb x p stream c,
     canon_met x (CanonMet cid (CanonExecuted c)) ->
-    (* independent of the local streams *)
-    (forall m stream',
-        exec_canon (with_streams x m) p stream' canon =
-        xres_map (fun y => with_streams y m) (exec_canon x p stream canon)) /\
-    (* success: the canon variable holds the decoded content of c, Executed(c) is written again,
-       the streams are not touched *)
-    (forall y, exec_canon x p stream canon = XOk y ->
+    (* independent of the local streams / stream maps *)
+    (forall ms mm tb' stream',
+        exec_canon_generic k tb' (with_tables x ms mm) p stream' =
+        xres_map (fun y => with_tables y ms mm) (exec_canon_generic k tb x p stream)) /\
+    (* success: the variable holds the decoded content of c, Executed(c) is written again, the stream
+       tables are not touched *)
+    (forall y, exec_canon_generic k tb x p stream = XOk y ->
         exists w, decode_canon_result c = Some w /\
-                  canon_bound x y (v_name canon) w /\
+                  value_bound k x y (cw_values w) (cw_tetraplet w) c /\
                   tr y = tr x ++ [SCanon (CanonExecuted c)] /\
-                  x_ext y = x_ext x) /\
+                  same_tables x y) /\
     (* and never a new content id *)
-    (forall y, outcome_ctx (exec_canon x p stream canon) = Some y -> x_cids y = x_cids x).
+    (forall y, outcome_ctx (exec_canon_generic k tb x p stream) = Some y -> x_cids y = x_cids x).
 
-(* C11_first: at the designated peer, nothing executed met: the content id is that of the stream
-   values this peer knows now, in this peer's order, under the tetraplet (peer, "", "", "") *)
+(* C11_first: at the designated peer, nothing executed met: the content id is that of the values this
+   peer knows now, in this peer's order, under the tetraplet (peer, "", "", "") *)
 Definition C11_first_stmt : Prop :=
-  forall x p stream canon r y,
+  forall k tb x p stream r y,
     canon_met x r -> no_executed r ->
     resolve_peer_id_to_string x p = POk (current_peer x) ->
-    exec_canon x p stream canon = XOk y ->
-    let values := known_values x stream in
+    exec_canon_generic k tb x p stream = XOk y ->
+    let values := canon_producer k tb x stream (current_peer x) in
     let c := first_cid (current_peer x) values in
+    (* canon / canon_map take the stream's values as they are; the scalar form packs the map into one object *)
+    match k with CKMapScalar _ => True | _ => values = known_values tb x stream end /\
     tr y = tr x ++ [SCanon (CanonExecuted c)] /\
-    canon_bound x y (v_name canon)
-                {| cw_values := values; cw_tetraplet := canon_tetraplet (current_peer x); cw_cid := c |} /\
+    value_bound k x y values (canon_tetraplet (current_peer x)) c /\
     cid_mem c (cs_canon_results (x_cids y)) = true /\
     x_tracker y = x_tracker x ++ [c] /\                 (* the id is registered for this peer's signature *)
-    x_ext y = x_ext x /\
+    same_tables x y /\
     (* what every other peer will read off c: the same values (trace positions forgotten), same order *)
     decode_canon_result c =
       Some {| cw_values := map forget_pos values; cw_tetraplet := canon_tetraplet (current_peer x); cw_cid := c |}.
 
 (* C11_only_designated *)
 Definition C11_only_designated_stmt : Prop :=
-  forall x p stream canon y,
-    outcome_ctx (exec_canon x p stream canon) = Some y ->
+  forall k tb x p stream y,
+    outcome_ctx (exec_canon_generic k tb x p stream) = Some y ->
     (* the store of canon results changes, or an Executed state that was not met is written, only when
        the instruction's peer resolves to the current peer *)
     ((cs_canon_results (x_cids y) <> cs_canon_results (x_cids x) \/
@@ -165,12 +191,12 @@ Definition C11_unique_stmt : Prop :=
      next_prev_state h = Some (SCanon (CanonExecuted a)) \/ next_cur_state h = Some (SCanon (CanonExecuted a)) ->
      r = CanonMet cid (CanonExecuted a)) /\
   (* verify_canon: an executed result stored under another peer's tetraplet is refused, uncatchably *)
-  (forall x p name t vcs peer,
+  (forall k x p t vcs peer,
      resolve_peer_id_to_string x p = POk peer ->
      t <> canon_tetraplet peer ->
      cid_mem (CCanonResult (CTetraplet t) vcs) (cs_canon_results (x_cids x)) = true ->
      cid_mem (CTetraplet t) (cs_tetraplets (x_cids x)) = true ->
-     handle_canon_executed x p name (CCanonResult (CTetraplet t) vcs) =
+     handle_canon_executed k x p (CCanonResult (CTetraplet t) vcs) =
        XErr (EUncatch (UInstructionParametersMismatch "canon tetraplet")) x) /\
   (* ... and an uncatchable error ends the run with the previous data (no new data leaves the peer) *)
   (forall hook finish fuel i u x,
@@ -188,20 +214,20 @@ Definition stores_include (big small : cid_state) : Prop :=
   (forall c, cid_mem c (cs_canon_results small) = true -> cid_mem c (cs_canon_results big) = true).
 
 Definition C11_two_runs_stmt : Prop :=
-  forall x1 p1 stream1 canon1 r1 y1,
+  forall k1 tb1 x1 p1 stream1 r1 y1,
     (* first run: at the designated peer, nothing executed met *)
     canon_met x1 r1 -> no_executed r1 ->
     resolve_peer_id_to_string x1 p1 = POk (current_peer x1) ->
-    exec_canon x1 p1 stream1 canon1 = XOk y1 ->
-    let values := known_values x1 stream1 in
+    exec_canon_generic k1 tb1 x1 p1 stream1 = XOk y1 ->
+    let values := canon_producer k1 tb1 x1 stream1 (current_peer x1) in
     let c := first_cid (current_peer x1) values in
-    forall x2 p2 stream2 canon2 h2,
+    forall k2 tb2 x2 p2 stream2 h2,
       (* a later run (any peer, any local streams) is handed that state and resolves the same peer *)
       meet_canon_start cid cid_eqb (x_handler x2) = Ok (CanonMet cid (CanonExecuted c), h2) ->
       stores_include (x_cids x2) (x_cids y1) ->
       resolve_peer_id_to_string x2 p2 = POk (current_peer x1) ->
-      exec_canon x2 p2 stream2 canon2 =
-        canon_epilog (record_cid (set_handler x2 h2) (current_peer x1) c) (v_name canon2)
+      exec_canon_generic k2 tb2 x2 p2 stream2 =
+        canon_epilog k2 (record_cid (set_handler x2 h2) (current_peer x1) c)
                      (map forget_pos values) (canon_tetraplet (current_peer x1)) c.
 
 (* ------------------------------------------------------------------------------------------ *)
